@@ -23,6 +23,12 @@ ASSUMPTIONS = ["goroutine scheduling of the manager loop is observed only at qui
 
 def gen_e2e(r, tier):
     rows = "1:1 2:2 3:3 4:4 5:5 6:6 7:7 8:8 9:9"
+    # local executor: an Exclusive operator anywhere in a task's pipeline gives the task all procs
+    rows16 = " ".join("%d:%d" % (i, i) for i in range(32))
+    for p in (2, 4):
+        for prog in ("N0=reader 4 2 %s ; N1=mapx N0 id ; OUT N1", "N0=reader 4 2 %s ; N1=mapx N0 id ; N2=map N1 inc ; N3=filter N2 all ; OUT N3",
+                     "N0=const 4 %s ; N1=map N0 inc ; N2=mapx N1 id ; N3=map N2 id ; OUT N3", "N0=const 3 %s ; N1=reshuffle N0 ; N2=mapx N1 id ; N3=map N2 inc ; OUT N3"):
+            yield "local P%d ;; run %s ;; xconc" % (p, prog % rows16)
     n = 40 if tier == "quick" else 800
     for i in range(n):
         cfg = "bm M%d P%d L%d" % (r.choice([1, 2, 2, 4]), r.choice([1, 2, 4, 6]), r.choice([50, 95, 100]))
